@@ -297,6 +297,10 @@ epochLoop:
 				if tx.Slot < int(until) {
 					break epochLoop
 				}
+				if tx.Slot >= int(before) {
+					// Newer than the requested range (before is exclusive): skip it.
+					continue
+				}
 				sig, err := tx.Signature()
 				if err != nil {
 					return nil, fmt.Errorf("error while getting signature: %w", err)
